@@ -34,7 +34,11 @@ def qualStrict (m : Measure) (op : String) (t : PyV) (a b : List Tok) : Bool :=
 def qualRounded (m : Measure) (op : String) (t : PyV) (a b : List Tok) : Bool :=
   compFn op (score4 m a b) t
 
-/-- overlap coefficient of two token sets: `float(|A∩B|) / min(|A|,|B|)`, not rounded -/
+/-- overlap coefficient of two token sets: `float(|A∩B|) / min(|A|,|B|)`, not rounded.  This is the formula the join
+    computes inline (join/overlap_coefficient_join_py.py), NOT py_stringmatching's `OverlapCoefficient` (which returns 1.0
+    for two empty sets and 0 when one is empty): with an empty side the formula divides by zero — the join never evaluates
+    it there (both-empty pairs are decided by `allow_empty` before, a one-empty pair has no common token and is never a
+    candidate), and an `err` value satisfies none of the comparisons. -/
 def ovcScore (a b : List Tok) : PyV :=
   PyV.div (PyV.toFloat (.int (interCount a b))) (PyV.toFloat (.int (min a.length b.length : Nat)))
 
